@@ -321,9 +321,52 @@ def rand_block(rnd, level, nsyms=None, nin=None, ntrees=None, opts=()):
     return b
 
 
+def maxlen_block(rnd, level, ngroups=None):
+    """A block with long stretches of 20-bit codes: coding groups that consume
+    close to the format maximum of 1000 bits (50 codes x 20 bits)."""
+    nin = 19 + rnd.choice([0, 0, 3, 40])
+    used = sorted(rnd.sample(range(256), nin))
+    alpha = nin + 2
+    base = list(range(1, 20)) + [20, 20]
+    if alpha > 21:
+        # split the length-1 leaf into a complete subtree for the extra symbols
+        extra = alpha - 21
+        sub = [l + 1 for l in huff_lengths([1] * (extra + 1), maxlen=18)]
+        base = sub + base[1:]
+    lens = base[:]
+    assert len(lens) == alpha and kraft(lens) == 0
+    # put the two 20-bit codes on MTF symbols (not RUNA/RUNB/EOB)
+    idx = list(range(alpha))
+    long_syms = [i for i, l in enumerate(lens) if l == 20]
+    perm = lens[:]
+    mtf_slots = [i for i in range(2, alpha - 1)]
+    a, b = rnd.sample(mtf_slots, 2)
+    for src, dst in zip(long_syms, (a, b)):
+        perm[src], perm[dst] = perm[dst], perm[src]
+    lens = perm
+    ngroups = ngroups or rnd.choice([5, 40, 150])
+    syms = []
+    for _ in range(rnd.randint(0, 60)):
+        syms.append(rnd.randint(2, alpha - 2))
+    for g in range(ngroups):
+        k = rnd.choice([50, 50, 50, 49, 48, 30])
+        syms += [rnd.choice((a, b)) for _ in range(k)]
+        syms += [rnd.randint(2, alpha - 2) for _ in range(rnd.choice([0, 0, 1, 2, 7]))]
+    other = rand_table(rnd, alpha)
+    ng = (len(syms) + 1 + 49) // 50
+    blk = Block(used, syms, [lens, other], [0] * ng)
+    nb = blk.nblock()
+    if nb > level * 100000:
+        return maxlen_block(rnd, level, max(1, ngroups // 4))
+    blk.orig = rnd.randrange(nb)
+    return blk
+
+
 def rand_stream(rnd, level=None, nblocks=None, opts=()):
     level = level or rnd.randint(1, 9)
     nblocks = rnd.choice([0, 1, 1, 2, 3, 5]) if nblocks is None else nblocks
+    if 'maxlen' in opts:
+        return Stream(level, [maxlen_block(rnd, level) if rnd.random() < 0.7 else rand_block(rnd, level, opts=opts) for _ in range(max(1, nblocks))])
     return Stream(level, [rand_block(rnd, level, opts=opts) for _ in range(nblocks)])
 
 
